@@ -121,9 +121,21 @@ def draw_case(rng, tier):
     opts = None
     if api == 'format':
         r = rng.random()
-        if r < 0.45:
+        if r < 0.2:
+            # the two filters that keep indent/offset state while they work
+            opts = dict(rng.choice([{'reindent': True},
+                                    {'reindent_aligned': True}]))
+        elif r < 0.3:
+            # a serialiser-stage filter on top of each grouping filter
+            opts = {'output_format': rng.choice(['python', 'php'])}
+            opts.update(rng.choice([
+                {'strip_comments': True}, {'strip_whitespace': True},
+                {'use_space_around_operators': True},
+                {'reindent_aligned': True}, {'reindent': True},
+                {'keyword_case': 'upper'}, {'truncate_strings': 4}]))
+        elif r < 0.5:
             opts = dict(rng.choice(corpus.LAYOUT_OPTS))
-        elif r < 0.75:
+        elif r < 0.78:
             opts = dict(rng.choice(corpus.TARGETED_OPTS))
         else:
             opts = corpus.draw_opts(rng)
@@ -194,6 +206,16 @@ def gen(seed, idx, tier, ctx):
                               P=0))
     fu = [FOLLOWUPS[rng.randrange(len(FOLLOWUPS))]
           for _ in range(rng.randint(2, 4))]
+    # state leaked by a filter only shows when the same filter runs again:
+    # always follow up with the faulted call's own entry point and options
+    # on ordinary text
+    same = rng.choice(corpus.RICH)
+    if case['api'] == 'format':
+        fu.insert(0, ('format', same, case['opts']))
+    elif case['api'] == 'split':
+        fu.insert(0, ('split', same, case['opts']))
+    else:
+        fu.insert(0, ('parse', same, None))
     return {'check': CHECK, 'seed': seed, 'idx': idx, 'state': state,
             're_cold': state == 'fresh' and rng.random() < 0.15,
             'calls': calls, 'hstar': hstar, 'mode': mode,
@@ -399,6 +421,7 @@ def run(spec, refs):
             try:
                 kind, val, text = _do_faulted(call, None, 0)
             finally:
+                limit_delta = sys.getrecursionlimit() - spec['limit']
                 sys.setrecursionlimit(old)
             H = P = None
             stat('deep_calls')
@@ -406,6 +429,7 @@ def run(spec, refs):
             H, P = call['H'], call.get('P', 0)
             ctl = _control(call, H, P)
             kind, val, text = _do_faulted(call, H, P)
+            limit_delta = ops.LIMIT_DELTA[0]
         stat('faulted_calls')
         stat('outcome_' + kind)
         site = None
@@ -434,6 +458,13 @@ def run(spec, refs):
         base = {'call_index': ci, 'api': call['api'], 'H': H, 'P': P,
                 'construct': cons, 'depth': call['inp'].get('d'),
                 'opts': call.get('opts'), 'state': spec['state']}
+        if limit_delta:
+            viols.append(dict(
+                base, cls='limit-leak', delta=limit_delta,
+                msg='%s left the interpreter\'s recursion limit changed by '
+                    '%+d after ending with %s: the limit the caller chose '
+                    'no longer protects later calls' % (
+                        call['api'], limit_delta, kind)))
         if kind == 'recursion':
             if deep or ctl != 'recursion':
                 v = dict(base, cls='escape:RecursionError',
